@@ -15,6 +15,7 @@
      BlockCollection._checkValidWeightingFactors             -> Refused    (zero and non-zero flux mixed -> ValueError)
      BlockCollection.createRepresentativeBlock               -> RepOf      (the one operation; a state = one collection)
      AverageBlockCollection._getAverageNumberDensities       -> AvgDens    (homogenised block densities)
+       + Block.setNumberDensities (composites.updateNumberDensities) -> Spread (block mode: same density in every holder)
        ._getAverageComponentNumberDensities                  -> AvgCompDens
        ._getAverageComponentTemperature                      -> AvgCompTemp (weights W/height, times component mass)
        ._performAverageByComponent/_checkBlockSimilarity     -> ByComp     (same component flags in every candidate)
@@ -127,7 +128,11 @@ MedBefore(cs, ps, i, j) == \/ MedKey(cs[i]) < MedKey(cs[j])
 MedianIdx(cs, ps) == CHOOSE j \in Idx(cs) : Cardinality({i \in Idx(cs) : MedBefore(cs, ps, i, j)}) = Len(cs) \div 2
 
 (* ---------- createRepresentativeBlock ---------- *)
-NoRep(out) == [out |-> out, src |-> 0, dens |-> <<>>, cdens |-> <<>>, ctemp |-> <<>>, ntemp |-> <<>>, bu |-> RZero]
+NoRep(out) == [out |-> out, mode |-> "", src |-> 0, dens |-> <<>>, cdens |-> <<>>, ctemp |-> <<>>, ntemp |-> <<>>, bu |-> RZero]
+\* block-level averaging writes the homogenised average back with Block.setNumberDensities, which gives every component
+\* that holds the nuclide the same density (composites.updateNumberDensities: "evenly across all components that contain it")
+Spread(c, k, avg) == IF k \in Holds[c] THEN RDiv(RMul(avg, RInt(Area)), RInt(ISum([d \in Comps |-> IF k \in Holds[d] THEN CompArea[d] ELSE 0])))
+                     ELSE RZero
 RepOf(ms, opt) ==
     LET ps == CandPos(ms, opt.filter)
         cs == Cand(ms, opt.filter)
@@ -137,22 +142,22 @@ RepOf(ms, opt) ==
        ELSE IF r = "Median" THEN
             LET m == MedianIdx(cs, ps)
                 one == <<cs[m]>>
-            IN [out |-> "ok", src |-> ps[m],                                       \* a deep copy of member ps[m]
+            IN [out |-> "ok", mode |-> "median", src |-> ps[m],                    \* a deep copy of member ps[m]
                 dens  |-> [k \in Nucs |-> BlockDens(cs[m], k)],
                 cdens |-> [c \in Comps |-> [k \in Nucs |-> RInt(cs[m].n[c][k])]],
                 ctemp |-> [c \in Comps |-> RInt(cs[m].t[c])],
                 ntemp |-> [k \in Nucs |-> NucTemp(one, r, k)],
                 bu    |-> RInt(cs[m].bu)]
        ELSE IF ByComp(cs, opt) THEN
-            [out |-> "ok", src |-> ps[1],                                          \* geometry copied from the first candidate
+            [out |-> "ok", mode |-> "component", src |-> ps[1],                    \* geometry copied from the first candidate
              dens  |-> [k \in Nucs |-> AvgDens(cs, r, k)],                       \* = the homogenised by-component result
              cdens |-> [c \in Comps |-> [k \in Nucs |-> AvgCompDens(cs, r, c, k)]],
              ctemp |-> [c \in Comps |-> AvgCompTemp(cs, r, c)],
              ntemp |-> [k \in Nucs |-> NucTemp(cs, r, k)],
              bu    |-> Burnup(cs, r)]
-       ELSE [out |-> "ok", src |-> ps[1],
+       ELSE [out |-> "ok", mode |-> "block", src |-> ps[1],
              dens  |-> [k \in Nucs |-> AvgDens(cs, r, k)],
-             cdens |-> <<>>,
+             cdens |-> [c \in Comps |-> [k \in Nucs |-> Spread(c, k, AvgDens(cs, r, k))]],
              ctemp |-> <<>>,
              ntemp |-> [k \in Nucs |-> NucTemp(cs, r, k)],
              bu    |-> Burnup(cs, r)]
